@@ -8,6 +8,7 @@ package memberlist
 
 import (
 	"bytes"
+	"net"
 	"time"
 
 	"github.com/google/btree"
@@ -267,3 +268,135 @@ func VerifSetRecord(m *Memberlist, name string, inc uint32, st NodeStateType) {
 		n.State = st
 	}
 }
+
+// ---- constants and codec wrappers ----
+
+// VerifConsts returns the protocol constants the formal model depends on, as the
+// compiler sees them.
+func VerifConsts() map[string]int {
+	return map[string]int{
+		"pingMsg": int(pingMsg), "indirectPingMsg": int(indirectPingMsg), "ackRespMsg": int(ackRespMsg),
+		"suspectMsg": int(suspectMsg), "aliveMsg": int(aliveMsg), "deadMsg": int(deadMsg),
+		"pushPullMsg": int(pushPullMsg), "compoundMsg": int(compoundMsg), "userMsg": int(userMsg),
+		"compressMsg": int(compressMsg), "encryptMsg": int(encryptMsg), "nackRespMsg": int(nackRespMsg),
+		"hasCrcMsg": int(hasCrcMsg), "errMsg": int(errMsg), "hasLabelMsg": int(hasLabelMsg),
+		"compoundHeaderOverhead": compoundHeaderOverhead, "compoundOverhead": compoundOverhead,
+		"userMsgOverhead": userMsgOverhead, "crcHeaderOverhead": crcHeaderOverhead,
+		"encryptOverhead0": encryptOverhead(0), "encryptOverhead1": encryptOverhead(1),
+		"versionSize": versionSize, "nonceSize": nonceSize, "tagSize": tagSize, "blockSize": blockSize,
+		"maxEncryptionVersion": int(maxEncryptionVersion),
+		"maxPushStateBytes": maxPushStateBytes, "maxPushStateNodes": maxPushStateNodes,
+		"maxUserMsgBytes": maxUserMsgBytes, "maxPushPullRequests": maxPushPullRequests,
+		"maxDecompressedBytes": maxDecompressedBytes, "MetaMaxSize": MetaMaxSize,
+		"LabelMaxSize": LabelMaxSize, "ProtocolVersionMin": int(ProtocolVersionMin),
+		"ProtocolVersionMax": ProtocolVersionMax, "ProtocolVersion2Compatible": ProtocolVersion2Compatible,
+		"maxCompoundParts": 255,
+	}
+}
+
+// VerifEncryptedLength wraps encryptedLength.
+func VerifEncryptedLength(vsn uint8, inp int) int { return encryptedLength(encryptionVersion(vsn), inp) }
+
+// VerifMakeCompoundMessage wraps makeCompoundMessage.
+func VerifMakeCompoundMessage(msgs [][]byte) []byte { return makeCompoundMessage(msgs).Bytes() }
+
+// VerifMakeCompoundMessages wraps makeCompoundMessages.
+func VerifMakeCompoundMessages(msgs [][]byte) [][]byte {
+	var out [][]byte
+	for _, b := range makeCompoundMessages(msgs) {
+		out = append(out, b.Bytes())
+	}
+	return out
+}
+
+// VerifDecodeCompoundMessage wraps decodeCompoundMessage (buf without the type byte).
+func VerifDecodeCompoundMessage(buf []byte) (int, [][]byte, error) { return decodeCompoundMessage(buf) }
+
+// VerifPkcs7Encode pads a copy of buf like pkcs7encode does inside encryptPayload.
+func VerifPkcs7Encode(buf []byte, ignore, blockSize int) []byte {
+	b := bytes.NewBuffer(append([]byte(nil), buf...))
+	pkcs7encode(b, ignore, blockSize)
+	return b.Bytes()
+}
+
+// VerifPkcs7Valid wraps pkcs7valid.
+func VerifPkcs7Valid(buf []byte, blockSize int) bool { return pkcs7valid(buf, blockSize) }
+
+// VerifPkcs7Decode wraps pkcs7decode.
+func VerifPkcs7Decode(buf []byte, blockSize int) []byte { return pkcs7decode(buf, blockSize) }
+
+// VerifIngestPacket wraps ingestPacket.
+func VerifIngestPacket(m *Memberlist, buf []byte, from net.Addr, ts time.Time) { m.ingestPacket(buf, from, ts) }
+
+// VerifHandleConn wraps handleConn (one inbound stream, synchronously).
+func VerifHandleConn(m *Memberlist, conn net.Conn) { m.handleConn(conn) }
+
+// VerifHandoffLen returns the number of messages waiting for the packet handler.
+func VerifHandoffLen(m *Memberlist) int {
+	m.msgQueueLock.Lock()
+	defer m.msgQueueLock.Unlock()
+	return m.highPriorityMsgQueue.Len() + m.lowPriorityMsgQueue.Len()
+}
+
+// VerifRawSendMsgPacket wraps rawSendMsgPacket.
+func VerifRawSendMsgPacket(m *Memberlist, a Address, node *Node, msg []byte) error {
+	return m.rawSendMsgPacket(a, node, msg)
+}
+
+// VerifSendMsg wraps sendMsg (primary message plus piggybacked broadcasts).
+func VerifSendMsg(m *Memberlist, a Address, msg []byte) error { return m.sendMsg(a, msg) }
+
+// VerifRawSendMsgStream wraps rawSendMsgStream.
+func VerifRawSendMsgStream(m *Memberlist, conn net.Conn, buf []byte, label string) error {
+	return m.rawSendMsgStream(conn, buf, label)
+}
+
+// VerifEncode wraps encode for the message structs, selected by type.
+func VerifEncode(msgType uint8, seqNo uint32, node string, payload []byte) ([]byte, error) {
+	var in any
+	switch messageType(msgType) {
+	case pingMsg:
+		in = &ping{SeqNo: seqNo, Node: node}
+	case ackRespMsg:
+		in = &ackResp{SeqNo: seqNo, Payload: payload}
+	case nackRespMsg:
+		in = &nackResp{SeqNo: seqNo}
+	case suspectMsg:
+		in = &suspect{Incarnation: seqNo, Node: node, From: string(payload)}
+	case deadMsg:
+		in = &dead{Incarnation: seqNo, Node: node, From: string(payload)}
+	case errMsg:
+		in = &errResp{Error: node}
+	default:
+		in = &ping{SeqNo: seqNo, Node: node}
+	}
+	buf, err := encode(messageType(msgType), in, false)
+	if err != nil {
+		return nil, err
+	}
+	return buf.Bytes(), nil
+}
+
+// VerifEncodeAlive encodes an alive message.
+func VerifEncodeAlive(inc uint32, node string, addr []byte, port uint16, meta []byte, vsn []uint8) []byte {
+	buf, _ := encode(aliveMsg, &alive{Incarnation: inc, Node: node, Addr: addr, Port: port, Meta: meta, Vsn: vsn}, false)
+	return buf.Bytes()
+}
+
+// VerifCompressPayload wraps compressPayload.
+func VerifCompressPayload(inp []byte) ([]byte, error) {
+	b, err := compressPayload(inp, false)
+	if err != nil {
+		return nil, err
+	}
+	return b.Bytes(), nil
+}
+
+// VerifDecompressPayload wraps decompressPayload (buf without the type byte).
+func VerifDecompressPayload(msg []byte) ([]byte, error) { return decompressPayload(msg) }
+
+// VerifQueueBroadcast queues a raw membership broadcast under a name.
+func VerifQueueBroadcast(m *Memberlist, name string, msg []byte) { m.queueBroadcast(name, msg, nil) }
+
+// VerifGetBroadcasts wraps getBroadcasts (membership queue plus user delegate).
+func VerifGetBroadcasts(m *Memberlist, overhead, limit int) [][]byte { return m.getBroadcasts(overhead, limit) }
